@@ -182,7 +182,7 @@ def run_precedence(ctx):
         b = f.lib.body(fn)
         if not res.anchor(b is not None, fn):
             continue
-        sw, arms = tablesrc.rule_dispatch(b)
+        b, sw, arms = dispatch_in_cluster(f.lib, b)
         if not res.anchor(sw is not None, "match on Rule in " + fn):
             continue
         res.floor(len(arms), floor, "arms:" + fn.rsplit("::", 1)[-1])
@@ -283,6 +283,22 @@ def _mentioned_rules(body):
     return out
 
 
+def dispatch_in_cluster(lib, b):
+    """the match on Rule of function b, or - when it was moved out - of a helper function that belongs to b alone"""
+    sw, arms = tablesrc.rule_dispatch(b)
+    if sw is not None:
+        return b, sw, arms
+    from ..owners import for_crate
+    own = for_crate(lib)
+    for hb in own.cluster(b.id):
+        if hb is b:
+            continue
+        sw, arms = tablesrc.rule_dispatch(hb)
+        if sw is not None:
+            return hb, sw, arms
+    return b, None, {}
+
+
 def run_dispatch(ctx, only=None):
     res = RuleResult("R-TABLES-D", "every alternative the grammar can hand to a pair-walking function has its own arm there (a missing "
                                    "arm is a panic in unexpected!/unreachable!, or - for value literals - a form that can never be built)")
@@ -297,7 +313,7 @@ def run_dispatch(ctx, only=None):
                  else "Variable::try_from::parse_int" if fn.endswith("::parse_int") else "::".join(fn.rsplit("::", 2)[-2:]))
         if not res.anchor(b is not None, fn):
             continue
-        sw, arms = tablesrc.rule_dispatch(b)
+        b, sw, arms = dispatch_in_cluster(lib, b)
         if not res.anchor(sw is not None, "match on Rule in " + fn):
             continue
         handled = set(arms) | _mentioned_rules(b)
